@@ -714,6 +714,105 @@ theorem C16_def_invreliability (edges : List Rat) (os qs : List Rat) :
       (Diagram.reliability .hist edges ((os.zip qs).map fun c => (decide (c.1 ≤ c.2), c.2))).map (dispRel 2) := by
   rw [C16_invrelCases, C16_def_reliability]
 
+/-- the curve the definition prescribes for quantile level number t and input number k, from the valid
+(observation, forecast quantile) pairs of THAT level and input only: per bin (mean quantile value or 0, frequency of
+"observation ≤ quantile" if the bin holds at least two cases, else nothing) -/
+def specInvrelCurve (edges : List Rat) (t k : Nat) (c : List Rat × List Rat) : Series :=
+  let r := (Diagram.reliability .hist edges ((c.1.zip c.2).map fun c => (decide (c.1 ≤ c.2), c.2))).map (dispRel 2)
+  { ax := 0, kind := "line", label := if t = 0 then inName k else "_", xs := r.map (·.1), ys := r.map (·.2.1) }
+
+private theorem perInput_single {α : Type} (f : Nat → α → Series) (ins : List α) :
+    perInput (fun k a => [f k a]) ins = ins.zipIdx.map fun p => f p.2 p.1 := by
+  unfold perInput
+  induction ins.zipIdx with
+  | nil => rfl
+  | cons p ps ih => simp [List.flatMap_cons, ih]
+
+private theorem zipIdx_map' {α β : Type} (g : α → β) (l : List α) (n : Nat) :
+    (l.map g).zipIdx n = (l.zipIdx n).map fun p => (g p.1, p.2) := by
+  induction l generalizing n with
+  | nil => rfl
+  | cons a l ih => simp [List.zipIdx_cons, ih]
+
+/-- InvReliability with several quantile levels (-q a,b,…): the figure is, for every level in -q order, one curve per
+input in input order, and the curve of (level t, input k) is the defining statistic of the cases of level t and
+input k — of no other level.  In particular a bin that holds fewer than two cases at level t has no point on that
+curve (`dispRel 2` gives NaN) even if the bin is populated at another level. -/
+theorem C16_def_invreliability_levels (edges : List Rat) (levels : List (List (List Rat × List Rat))) :
+    invreliabilityFigure (edges.map fin) (levels.map fun ins => ins.map fun c => (c.1.map fin, c.2.map fin)) =
+      (levels.zipIdx.map fun lt => lt.1.zipIdx.map fun ck => specInvrelCurve edges lt.2 ck.2 ck.1).flatten := by
+  unfold invreliabilityFigure
+  congr 1
+  rw [zipIdx_map', List.map_map]
+  apply List.map_congr_left
+  intro lt _
+  simp only [Function.comp_def]
+  rw [perInput_single, zipIdx_map', List.map_map]
+  apply List.map_congr_left
+  intro ck _
+  simp only [Function.comp_def, invrelCurve, specInvrelCurve, C16_def_invreliability]
+
+private theorem flatten_uniform {α : Type} (F : Nat) (L : List (List α)) (hL : ∀ l ∈ L, l.length = F)
+    (t k : Nat) (hk : k < F) : L.flatten[t * F + k]? = (L[t]?).bind (·[k]?) := by
+  induction L generalizing t with
+  | nil => simp
+  | cons l L ih =>
+    have hl : l.length = F := hL l (List.mem_cons_self)
+    have hL' : ∀ l ∈ L, l.length = F := fun x hx => hL x (List.mem_cons_of_mem _ hx)
+    cases t with
+    | zero =>
+      simp only [Nat.zero_mul, Nat.zero_add, List.flatten_cons, List.getElem?_cons_zero, Option.bind_some]
+      rw [List.getElem?_append_left (by omega)]
+    | succ t =>
+      simp only [List.flatten_cons, List.getElem?_cons_succ]
+      rw [List.getElem?_append_right (by rw [hl, Nat.succ_mul]; omega)]
+      have : (t + 1) * F + k - l.length = t * F + k := by rw [hl, Nat.succ_mul]; omega
+      rw [this]
+      exact ih hL' t
+
+/-- position form: with F inputs (every level has one entry per input) the figure has one curve per level and input
+and the curve at position t·F + k is the definition's curve of level t and input k. -/
+theorem C16_invreliability_levels_order (edges : List Rat) (F : Nat) (levels : List (List (List Rat × List Rat)))
+    (hF : ∀ ins ∈ levels, ins.length = F) :
+    (invreliabilityFigure (edges.map fin) (levels.map fun ins => ins.map fun c => (c.1.map fin, c.2.map fin))).length
+        = levels.length * F ∧
+      ∀ t k (ht : t < levels.length) (hk : k < F),
+        (invreliabilityFigure (edges.map fin) (levels.map fun ins => ins.map fun c => (c.1.map fin, c.2.map fin)))[t * F + k]? =
+          (levels[t][k]?).map (specInvrelCurve edges t k) := by
+  rw [C16_def_invreliability_levels]
+  have hU : ∀ l ∈ levels.zipIdx.map (fun lt => lt.1.zipIdx.map fun ck => specInvrelCurve edges lt.2 ck.2 ck.1),
+      l.length = F := by
+    intro l hl
+    obtain ⟨lt, hlt, rfl⟩ := List.mem_map.mp hl
+    have : lt.1 ∈ levels := by
+      have := List.mem_zipIdx hlt
+      simp at this
+      rw [this.2]; exact List.getElem_mem _
+    simp [hF lt.1 this]
+  constructor
+  · rw [List.length_flatten]
+    have : ((levels.zipIdx.map (fun lt => lt.1.zipIdx.map fun ck => specInvrelCurve edges lt.2 ck.2 ck.1)).map List.length)
+        = List.replicate levels.length F := by
+      apply List.eq_replicate_iff.mpr
+      refine ⟨by simp, ?_⟩
+      intro n hn
+      obtain ⟨l, hl, rfl⟩ := List.mem_map.mp hn
+      exact hU l hl
+    rw [this]; simp
+  · intro t k ht hk
+    rw [flatten_uniform F _ hU t k hk, List.getElem?_map, zipIdx_get levels 0 t ht]
+    simp only [Option.map_some, Option.bind_some, Nat.zero_add]
+    have hlen : levels[t].length = F := hF _ (List.getElem_mem _)
+    rw [List.getElem?_map, zipIdx_get levels[t] 0 k (by omega)]
+    simp [List.getElem?_eq_getElem (by omega : k < levels[t].length)]
+
+/-- not vacuous, and the point of the statement: two levels, one input, bins [0,1), [1,2]; level 0 has two cases in the
+first bin and none in the second, level 1 the other way round: each curve has a point only in its own bin. -/
+example : (invreliabilityFigure [fin 0, fin 1, fin 2]
+      [[([fin 0, fin 1], [fin (1/2), fin (1/2)])], [([fin 0, fin 2], [fin (3/2), fin (3/2)])]]).map (fun s => (s.label, s.xs, s.ys)) =
+    [("in0", [fin (1/2), fin 0], [fin (1/2), nan]), ("_", [fin 0, fin (3/2)], [nan, fin (1/2)])] := by
+  decide +kernel
+
 /-- SpreadSkill: per spread bin (t_{i-1}, t_i] (the first one [t_0, t_1]) the point (mean spread, RMSE); the
 first plotted point is NaN. -/
 theorem C16_def_spreadskill (T : Tr) (ths : List Rat) (cs : List (Rat × Rat)) (hsk : ∀ c ∈ cs, 0 ≤ c.2) :
